@@ -55,7 +55,11 @@ def gen_case(D):
             'interval': interval, 'mm': mm,
             'fht': D.choice([0, 2, 5, 3600]),
             'batch': D.choice([0, 1, 10]), 'plan': [],
-            'salt': D.int(0, 10)}
+            'salt': D.int(0, 10),
+            # stand-alone action executions (started through the API, no
+            # task): the checker can only skip them - the "broken" members
+            # of a batch, created first so that they are selected first
+            'ghosts': D.choice([0, 0, 1, 2, 3])}
     for _ in range(D.int(2, 9)):
         r = D.int(0, 9)
         if r < 4:
@@ -110,11 +114,14 @@ def _run_hb(case, stats, text, checker):
     acts = case['acts']
 
     def outcome(tname, idx, attempt, info):
-        if tname.startswith('a'):
+        if tname is None or tname.startswith('a'):
             return ('never', None)     # the harness completes them itself
         return ('ok', 'a')
 
     sim.W.outcome = outcome
+    for _g in range(case.get('ghosts', 0)):
+        sim.call(sim.rpc_clients.get_engine_client().start_action,
+                 'std.noop', {}, save_result=True)
     sim.create_workflows(text)
     kind, val = sim.start_workflow('wf', {})
     if kind != 'ok':
@@ -136,6 +143,8 @@ def _run_hb(case, stats, text, checker):
     # map task name -> action id
     aid = {}
     for a in snap['action'].values():
+        if not a['task_execution_id']:
+            continue                    # a ghost
         t = snap['task'][a['task_execution_id']]
         if t['name'].startswith('a'):
             aid[int(t['name'][1:])] = a['id']
@@ -214,6 +223,24 @@ def _run_hb(case, stats, text, checker):
                              'detail': str(r[1])[:300]})
             drain()
             after = sim.snapshot()
+            # a batch size may legitimately spread one evaluation over
+            # several passes (the statement promises expiry, not "in one
+            # pass"): further passes at the same clock, as many as a
+            # correct batching implementation needs, must finish the set.
+            # Rows the checker can only skip (ghosts) must not starve it.
+            bs = case['batch'] or 0
+            if bs:
+                rounds = (len(expect) + case.get('ghosts', 0)) // bs + 2
+                for _ in range(rounds):
+                    done = {i for i in aid
+                            if after['action'][aid[i]]['state'] != 'RUNNING'}
+                    if expect <= done:
+                        break
+                    sim.auth_context.set_ctx(admin)
+                    sim.call(checker.handle_expired_actions)
+                    sim.auth_context.set_ctx(sim.CTX)
+                    drain()
+                    after = sim.snapshot()
             got = set()
             for i in aid:
                 b, a = before['action'][aid[i]], after['action'][aid[i]]
